@@ -309,10 +309,5 @@ Proof.
   cbn [app].
   rewrite (mc_scan_key key 46 [116; 120; 46] [] [] Hk).
   rewrite mc_scan_close by (apply last_key_char; assumption).
-  cbn [app cut_byte N.eqb Pos.eqb].
-  rewrite cut_byte_no_sep.
-  2:{ clear -Hk. induction key as [|c k IH]; [reflexivity|]. cbn [forallb] in *.
-      apply andb_true_iff in Hk as [Hc Hk]. rewrite (IH Hk), andb_true_r.
-      apply negb_true_iff, N.eqb_neq. apply (key_char_facts c Hc). }
-  reflexivity.
+  cbn [app cut_byte N.eqb Pos.eqb]. reflexivity.
 Qed.
